@@ -27,6 +27,9 @@ structure Flags where
   /-- seeded `C13-leaf-cache-full-shard-keeps-stale` / `C13-leaf-cache-budget-skip-insert`:
       `LeafCache::insert` returns early when `len >= max_items` -/
   leafSkipFull : Bool := false
+  /-- finding F25 (the code before the repair `6886fe6`): `make_shards` unwraps `NonZeroUsize::new(limit)` instead of
+      falling back to one page per shard -/
+  f25ZeroLimitUnwrap : Bool := false
 deriving Repr, DecidableEq
 
 /-- `CacheEntry` -/
@@ -117,7 +120,7 @@ def shardRegions (n : Nat) : Outcome Unit (List (Nat × Nat)) :=
     else .ok r) (List.range n)
 
 /-- `make_shards(num_shards, page_cache_size)` from the page limit on -/
-def makeShardsPages {P : Type} (n limitPages : Nat) : Outcome Unit (List (Shard P)) :=
+def makeShardsPages {P : Type} (q : Flags) (n limitPages : Nat) : Outcome Unit (List (Shard P)) :=
   let perChild := limitPages / 64
   if n = 0 then .panic "assert!(num_shards > 0)" else
   match shardRegions n with
@@ -125,12 +128,15 @@ def makeShardsPages {P : Type} (n limitPages : Nat) : Outcome Unit (List (Shard 
   | .err e => .err e
   | .ok regions =>
     mapO (fun (r : Nat × Nat) =>
-      if perChild * r.2 = 0 then .panic "NonZeroUsize::new(page_limit).unwrap()"
+      if perChild * r.2 = 0 then
+        -- `NonZeroUsize::new(limit).unwrap_or(NonZeroUsize::MIN)`; before the repair: `.unwrap()`
+        if q.f25ZeroLimitUnwrap then .panic "NonZeroUsize::new(page_limit).unwrap()"
+        else .ok { fixed := [], cached := Lru.unbounded, pageLimit := 1, count := r.2 }
       else .ok { fixed := [], cached := Lru.unbounded, pageLimit := perChild * r.2, count := r.2 }) regions
 
-def makeShards {P : Type} (dbg : Bool) (n sizeMiB : Nat) : Outcome Unit (List (Shard P)) :=
+def makeShards {P : Type} (q : Flags) (dbg : Bool) (n sizeMiB : Nat) : Outcome Unit (List (Shard P)) :=
   match cachePageLimit dbg sizeMiB with
-  | .ok l => makeShardsPages n l
+  | .ok l => makeShardsPages q n l
   | .panic s => .panic s
   | .err e => .err e
 
@@ -145,8 +151,8 @@ namespace PageCache
 variable {P : Type}
 
 /-- `PageCache::new(root_page_data, options)` (`commit_concurrency`, `page_cache_size`, `page_cache_upper_levels`) -/
-def new (dbg : Bool) (root : Option (Entry P)) (n sizeMiB fixedLevels : Nat) : Outcome Unit (PageCache P) :=
-  match makeShards dbg n sizeMiB with
+def new (q : Flags) (dbg : Bool) (root : Option (Entry P)) (n sizeMiB fixedLevels : Nat) : Outcome Unit (PageCache P) :=
+  match makeShards q dbg n sizeMiB with
   | .ok sh => .ok { shards := sh, root := root, fixedLevels := fixedLevels }
   | .panic s => .panic s
   | .err e => .err e
